@@ -100,9 +100,9 @@ func evalC06(c *Ctx, cs *Case) {
 		states = []int{r.Intn(numTS)}
 	} else if c.Quick() {
 		// rotate to keep the quick tier short; the thorough tier takes the full product
-		states = []int{int(cs.Seed) % numTS, (int(cs.Seed) + 1) % numTS}
-		routes = []int{0, 1, 2 + int(cs.Seed)%2}
-		e0 := int(cs.Seed) % 7
+		states = []int{int(cs.Seed%uint64(numTS)), int((cs.Seed+1)%uint64(numTS))}
+		routes = []int{0, 1, 2 + int(cs.Seed%uint64(2))}
+		e0 := int(cs.Seed%uint64(7))
 		extIdx = []int{e0, (e0 + 2) % 7, (e0 + 4) % 7}
 	}
 	for _, ei := range extIdx {
